@@ -1,0 +1,32 @@
+//go:build verif
+
+// C11 contracts for package flight12 (comment-only; read by /verif/vc).
+package flight12
+
+// Key-exchange group: the peer's (remote) order decides; X25519MLKEM768 (0x11ec = 4588) is not
+// usable in DTLS 1.2 and must never be selected even when both sides list it.
+
+//@ define HYBRID() elliptic.X25519MLKEM768
+
+//@ func supportedEllipticCurves
+//@ ensures subset: forall(0, len(result), func(k int) bool { return result[k] != HYBRID() && exists(0, len(curves), func(j int) bool { return curves[j] == result[k] }) })
+//@ ensures complete: forall(0, len(curves), func(i int) bool { return curves[i] != HYBRID() ==> exists(0, len(result), func(k int) bool { return result[k] == curves[i] }) })
+//@ ensures input-kept: forall(0, len(curves), func(i int) bool { return curves[i] == old(curves[i]) })
+//@ loop #1: fresh: !sameArray(filtered, curves) && len(filtered) <= idx && cap(filtered) == len(curves)
+//@ loop #1: input-kept: forall(0, len(curves), func(i int) bool { return curves[i] == old(curves[i]) })
+//@ loop #1: no-hybrid: forall(0, len(filtered), func(k int) bool { return filtered[k] != HYBRID() })
+//@ loop #1: subset: forall(0, len(filtered), func(k int) bool { return exists(0, idx, func(j int) bool { return curves[j] == filtered[k] }) })
+//@ loop #1: complete: forall(0, idx, func(i int) bool { return curves[i] != HYBRID() ==> exists(0, len(filtered), func(k int) bool { return filtered[k] == curves[i] }) })
+//@ end
+
+//@ func selectEllipticCurve
+//@ ensures in-remote: result1 ==> exists(0, len(remoteCurves), func(i int) bool { return remoteCurves[i] == result0 })
+//@ ensures in-local: result1 ==> exists(0, len(localCurves), func(j int) bool { return localCurves[j] == result0 })
+//@ ensures never-hybrid: result1 ==> result0 != elliptic.X25519MLKEM768
+//@ ensures first-in-remote: result1 ==> forall(0, len(remoteCurves), func(i int) bool { return exists(0, i+1, func(k int) bool { return remoteCurves[k] == result0 }) ||
+//@    remoteCurves[i] == elliptic.X25519MLKEM768 || forall(0, len(localCurves), func(j int) bool { return remoteCurves[i] != localCurves[j] }) })
+//@ ensures fails-iff-disjoint: !result1 ==> forall(0, len(remoteCurves), func(i int) bool { return remoteCurves[i] == elliptic.X25519MLKEM768 ||
+//@    forall(0, len(localCurves), func(j int) bool { return remoteCurves[i] != localCurves[j] }) })
+//@ ensures zero-on-failure: !result1 ==> result0 == 0
+//@ loop #1: scanned: forall(0, idx, func(i int) bool { return remoteCurves[i] == HYBRID() || forall(0, len(localCurves), func(j int) bool { return remoteCurves[i] != localCurves[j] }) })
+//@ end
